@@ -236,7 +236,7 @@ func (m *MockTableHandler) All() []interface{} {
 	data := m.db.data[m.name]
 	result := make([]interface{}, len(data))
 	for i, v := range data {
-		result[i] = v
+		result[i] = copyRecord(v)
 	}
 	return result
 }
@@ -268,6 +268,17 @@ func valuesEqual(a, b interface{}) bool {
 	return a == b
 }
 
+// copyRecord returns a copy of a row. Rows are handed out and taken in as
+// copies only: the caller runs on another goroutine and would otherwise read or
+// change the stored map while an operation holding the lock works on it.
+func copyRecord(r map[string]interface{}) map[string]interface{} {
+	c := make(map[string]interface{}, len(r))
+	for k, v := range r {
+		c[k] = v
+	}
+	return c
+}
+
 // Get retrieves a record by ID
 func (m *MockTableHandler) Get(id interface{}) interface{} {
 	m.db.mu.RLock()
@@ -275,7 +286,7 @@ func (m *MockTableHandler) Get(id interface{}) interface{} {
 
 	for _, record := range m.db.data[m.name] {
 		if sameID(record["id"], id) {
-			return record
+			return copyRecord(record)
 		}
 	}
 	return nil
@@ -296,7 +307,7 @@ func (m *MockTableHandler) Create(data map[string]interface{}) map[string]interf
 		data["id"] = int64(len(m.db.data[m.name]) + 1)
 	}
 
-	m.db.data[m.name] = append(m.db.data[m.name], data)
+	m.db.data[m.name] = append(m.db.data[m.name], copyRecord(data))
 	return data
 }
 
@@ -312,7 +323,7 @@ func (m *MockTableHandler) Update(id interface{}, data map[string]interface{}) m
 				record[k] = v
 			}
 			m.db.data[m.name][i] = record
-			return record
+			return copyRecord(record)
 		}
 	}
 	return nil
@@ -368,7 +379,7 @@ func (m *MockTableHandler) Filter(column string, value interface{}) []interface{
 	result := make([]interface{}, 0)
 	for _, record := range m.db.data[m.name] {
 		if valuesEqual(record[column], value) {
-			result = append(result, record)
+			result = append(result, copyRecord(record))
 		}
 	}
 	return result
